@@ -38,6 +38,9 @@ CLAIMS = {
 
  "C12": ("Structural necessary conditions of one-response-per-request and legal method order: interprocedural response counting with correlated boolean summaries (exactly one on every path), response construction only in newResponse with CSeq/Session, state assignments only in their handlers after success, handlers gated by onPreprocess, complete abstract evaluation of the state gate over status x method against the reference automaton (refusals 455 and pure), teardown releases. Does not decide transport/SDP validity or header content beyond CSeq/Session.",
          "SSA path-state with interprocedural summaries + finite-domain abstract evaluation", "DESIGN.md §3 C12"),
+
+ "C13": ("Lockset facts over all writers of each shared connection: every writing use holds the owning session's write mutex, response write and flush share one critical section, each WebSocket message is one write of a freshly assembled whole buffer, the buffered connection writes caller data directly only when its buffer is known empty and has no background goroutine. Does not decide kernel partial-write behaviour.",
+         "custom SSA lockset analysis + path-state", "DESIGN.md §3 C13"),
 }
 NA = {
  "C16": "pure input/output language equivalence of the pattern matcher over all pattern/path pairs: truth lives in string values, no structural clause implies it; deciding it needs exhaustive evaluation (execution), a different technique family",
